@@ -10,7 +10,7 @@ BlobHeader and Blob sizes up to the format limits, field order inside messages, 
 split repeated scalars, blobs of a type the reader does not know."""
 import struct
 
-from enc_pb import (f_bytes, f_repeated, f_svarint, f_varint, lz4_literal_only, lz4_with_matches, svarint,
+from enc_pb import (PAD_LEN, f_bytes, f_repeated, f_svarint, f_varint, lz4_literal_only, lz4_with_matches, svarint,
                     unknown_fields, varint, zlib_stream)
 
 MAX_HEADER = 64 * 1024 - 1          # "must be less than 64 KiB"
@@ -211,6 +211,13 @@ class Block:
                 f_repeated(3, [self.st[v] for k, v in o["tags"]], varint, pack)]
 
     def group(self, grp, hist):
+        PAD_LEN[0] = 5 if grp.get("lenpad") else 0
+        try:
+            return self._group(grp, hist)
+        finally:
+            PAD_LEN[0] = 0
+
+    def _group(self, grp, hist):
         kind = grp["kind"]
         pack = grp.get("pack", "packed")
         how = grp.get("order", "canon")
@@ -276,7 +283,9 @@ class Block:
                 viss.append(1 if o["vis"] else 0)
             f = [f_repeated(1, ids, svarint, pack)]
             di = []
-            if mode == "all" or any(o["v"] for o in objs):
+            if mode == "neg":
+                vers = [-1 if v == 0 else v for v in vers]
+            if mode in ("all", "neg") or any(o["v"] for o in objs):
                 di.append(f_repeated(1, vers, varint, pack))
             if mode == "all" or any(o["ts"] for o in objs):
                 di.append(f_repeated(2, tss, svarint, pack))
